@@ -161,8 +161,8 @@ def hexScaleSciExpLiterals : List Nat := [0]
 def writeFloatLiterals : List Nat := [1, 0]
 /-- the documented `(radix, base)` pairs of hex.rs' `debug_assert!`, then `- 1`, `= 0` -/
 def hexWriteFloatLiterals : List Nat := [4, 2, 8, 2, 16, 2, 32, 2, 16, 4, 1, 0]
-def writeFloatScientificLiterals : List Nat := [2, 1, 0, 1, 1, 2, 1, 1, 2, 1, 2, 1, 1]
-def writeFloatNegativeExponentLiterals : List Nat := [0, 2, 0, 1, 2, 1, 1]
+def writeFloatScientificLiterals : List Nat := [2, 1, 1, 0, 1, 1, 2, 1, 1, 2, 1, 2, 1, 1]
+def writeFloatNegativeExponentLiterals : List Nat := [0, 2, 1, 0, 1, 2, 1, 1]
 def writeFloatPositiveExponentLiterals : List Nat := [0, 1, 1, 1, 1, 1, 0, 1, 1]
 def truncateAndRoundLiterals : List Nat := [1]
 
